@@ -373,7 +373,12 @@ def _run_resize(case, r):
             return ok
 
         rs = darsia.Resize(shape=tgt, interpolation="inter_area", **opts)
-        for arr in basis + [gen]:
+        # data whose total vanishes (an all-zero image; signed data minus its point reflection): the sum
+        # to be conserved is zero, per channel
+        zero_sum = []
+        if np.dtype(dt).kind == "f":
+            zero_sum = [np.zeros_like(gen), (gen - gen[::-1, ::-1]).astype(dt)]
+        for arr in basis + [gen] + zero_sum:
             src_ = _make(arr.copy(), pl)
             out = _call_keep(chk, "resize", lambda: rs(src_), src_)
             judge(out, arr, "shape")
@@ -664,13 +669,18 @@ def _run_superpose_offset(case, r):
         arrs.append(np.arange(base, base + n, dtype=dt).reshape(s))
         base += n
     offsets2 = list(itertools.product(offs, repeat=2))
-    for combo in itertools.product(offsets2, repeat=k - 1):
+    # (the first image's corner is integer-valued: it is also spelled with Python ints, which makes its
+    # origin array integer-typed while later images sit at fractional offsets)
+    for combo, int_first in [(c_, f_) for c_ in itertools.product(offsets2, repeat=k - 1) for f_ in ((False, True) if k == 2 else (False,))]:
         placed = [(0, 0)] + list(combo)  # (row offset, column offset) of the top-left voxel, in voxels
         if k > 1:
-            r.nontriv(("superpose-offset", tuple(shapes), str(dt), combo))
+            r.nontriv(("superpose-offset", tuple(shapes), str(dt), combo, int_first))
         imgs = []
-        for a, (ro, co) in zip(arrs, placed):
-            imgs.append(_scalar_image(a.copy(), vs, [x0 + co * vs[1], ytop - ro * vs[0]], False))
+        for i_, (a, (ro, co)) in enumerate(zip(arrs, placed)):
+            org_ = [x0 + co * vs[1], ytop - ro * vs[0]]
+            if i_ == 0 and int_first:
+                org_ = [int(org_[0]), int(org_[1])]
+            imgs.append(_scalar_image(a.copy(), vs, org_, False))
         out = _call_keep(chk, "superpose", lambda: darsia.superpose(imgs), *imgs)
         rmin = min(ro for ro, _ in placed)
         cmin = min(co for _, co in placed)
